@@ -1,0 +1,108 @@
+//go:build verif
+
+package uasc
+
+import "sync/atomic"
+
+// VerifHook, when set, is called at the named points of the secure channel
+// (only in builds with -tags verif). The hook may block: it doubles as a
+// scheduler gate for replaying interleavings. kv are key/value pairs.
+var VerifHook atomic.Value // func(point string, s *SecureChannel, kv ...any)
+
+func verifPoint(point string, s *SecureChannel, kv ...any) {
+	if h, ok := VerifHook.Load().(func(string, *SecureChannel, ...any)); ok && h != nil {
+		h(point, s, kv...)
+	}
+}
+
+// VerifConnID returns the id of the underlying UACP connection.
+func VerifConnID(s *SecureChannel) uint32 { return s.c.ID() }
+
+// VerifIsServer reports whether s is a server side channel.
+func VerifIsServer(s *SecureChannel) bool { return s.kind == server }
+
+// VerifPendingHandlers returns the number of registered response handlers.
+func VerifPendingHandlers(s *SecureChannel) int {
+	s.handlersMu.Lock()
+	defer s.handlersMu.Unlock()
+	return len(s.handlers)
+}
+
+// VerifBufferedChunks returns the number of request ids with buffered
+// intermediate chunks and the total number of buffered chunks and bytes.
+func VerifBufferedChunks(s *SecureChannel) (reqs, chunks, bytes int) {
+	s.chunksMu.Lock()
+	defer s.chunksMu.Unlock()
+	for _, cs := range s.chunks {
+		reqs++
+		chunks += len(cs)
+		for _, c := range cs {
+			bytes += len(c.Data)
+		}
+	}
+	return
+}
+
+// VerifTokens returns the token ids of the channel instances currently
+// accepted for the given secure channel id, oldest first, and the active one.
+func VerifTokens(s *SecureChannel) (all map[uint32][]uint32, active uint32) {
+	s.instancesMu.Lock()
+	defer s.instancesMu.Unlock()
+	all = map[uint32][]uint32{}
+	for id, is := range s.instances {
+		for _, i := range is {
+			all[id] = append(all[id], i.securityTokenID)
+		}
+	}
+	if s.activeInstance != nil {
+		active = s.activeInstance.securityTokenID
+	}
+	return
+}
+
+// VerifActive returns channel id, token id, next sequence number base and the
+// maximum body size of the active instance.
+func VerifActive(s *SecureChannel) (channelID, tokenID, seq, maxBody uint32, ok bool) {
+	s.instancesMu.Lock()
+	i := s.activeInstance
+	s.instancesMu.Unlock()
+	if i == nil {
+		return
+	}
+	i.Lock()
+	defer i.Unlock()
+	return i.secureChannelID, i.securityTokenID, i.sequenceNumber, i.maxBodySize, true
+}
+
+// VerifSetSequenceNumber sets the last used sequence number of the active
+// instance (to start a run close to the wrap-around point).
+func VerifSetSequenceNumber(s *SecureChannel, n uint32) bool {
+	s.instancesMu.Lock()
+	i := s.activeInstance
+	s.instancesMu.Unlock()
+	if i == nil {
+		return false
+	}
+	i.Lock()
+	i.sequenceNumber = n
+	i.Unlock()
+	return true
+}
+
+// VerifLifetime returns creation time (unix ns) and revised lifetime (ns) of the active instance.
+func VerifLifetime(s *SecureChannel) (createdAt int64, lifetime int64) {
+	s.instancesMu.Lock()
+	defer s.instancesMu.Unlock()
+	if s.activeInstance == nil {
+		return 0, 0
+	}
+	return s.activeInstance.createdAt.UnixNano(), int64(s.activeInstance.revisedLifetime)
+}
+
+// verifSeqOff returns the offset of the sequence number in an encoded plaintext chunk of m.
+func verifSeqOff(m *Message) int {
+	if m.MessageHeader.AsymmetricSecurityHeader != nil {
+		return 12 + m.MessageHeader.AsymmetricSecurityHeader.Len()
+	}
+	return 16
+}
